@@ -1,0 +1,15 @@
+//go:build verif
+// +build verif
+
+package io
+
+// Verification hooks (build tag verif): observation points of the HDF5 package lock.
+// VerifLockHook, when set, is called inside the critical section: after the lock has been
+// acquired ("rlock", "lock") and before it is released ("runlock", "unlock").
+var VerifLockHook func(event string)
+
+func verifLockEvent(event string) {
+	if h := VerifLockHook; h != nil {
+		h(event)
+	}
+}
